@@ -266,6 +266,13 @@ static void emit_fvfv(bool minus, const F::Factors & sp, const F::FactoredVector
     Line l; l << "C14" << "fvfv" << (minus ? "minus" : "plus"); l.nats(sp); putFV(l, fv); putFV(l, rhs); l << "|";
     putFV(l, r); putGets(l, sp, r); l.emit();
 }
+// minusEqual(..., clearZero = true); rhs with one basis goes through the BasisFunction overload
+static void emit_fvcz(const F::Factors & sp, const F::FactoredVector & fv, const F::FactoredVector & rhs) {
+    F::FactoredVector r = fv;
+    if (rhs.bases.size() == 1) F::minusEqual(sp, r, rhs.bases[0], true); else F::minusEqual(sp, r, rhs, true);
+    Line l; l << "C14" << "fvcz"; l.nats(sp); putFV(l, fv); putFV(l, rhs); l << "|"; putFV(l, r); putGets(l, sp, r); l.emit();
+    ::printf("#stat fvcz_%s 1\n", r.bases.size() < fv.bases.size() ? "dropped" : "kept");
+}
 static void emit_fvscale(const F::Factors & sp, const F::FactoredVector & fv, double c, bool left) {
     F::FactoredVector r = left ? c * fv : fv * c;
     Line l; l << "C14" << "fvscale"; l.nats(sp); putFV(l, fv); l << c << "|"; putFV(l, r); putGets(l, sp, r); l.emit();
@@ -349,6 +356,12 @@ static void fixed_cases(Rng & rng) {
         emit_fvfv(true, sp, fa, fb, 1);
         emit_fvop(false, sp, fa, b, 0); emit_fvop(false, sp, fa, c, 1); emit_fvop(false, sp, fa, d, 2);
         emit_fvfv(false, sp, fa, fb, 0);
+        F::FactoredVector fz; fz.bases.push_back(a); fz.bases.push_back(c);
+        F::FactoredVector one; one.bases.push_back(a);
+        emit_fvcz(sp, fz, one);            // a - a = 0: basis dropped, value 2 everywhere
+        F::BasisFunction na = a; na.values *= -1.0;
+        F::FactoredVector mone; mone.bases.push_back(na);
+        emit_fvcz(sp, fz, mone);           // a - (-a) = 2a (the snapshot adds: drops the basis)
     }
     // --- witness #22: dot/plus/minus size their result with toIndexPartial(tag, space, space)
     {
@@ -416,6 +429,17 @@ static void alg_case(Rng & rng, const std::string & tier) {
     auto fv2 = randFV(rng, sp, 3, &t1);
     emit_fvfv(false, sp, fv, fv2, (int)rng.below(3));
     emit_fvfv(true, sp, fv, fv2, (int)rng.below(2));
+    // clearZero: subtract (or, to hit the snapshot's adding behaviour, add) copies of stored bases so that some become zero
+    if (!fv.bases.empty()) {
+        F::FactoredVector z; int nz = (int)rng.range(1, 2);
+        for (int t = 0; t < nz; ++t) {
+            auto b = fv.bases[rng.below(fv.bases.size())];
+            if (rng.coin()) b.values *= -1.0;
+            if (rng.coin(1, 4)) b.values[(long)rng.below((size_t)b.values.size())] += 0.25;
+            z.bases.push_back(b);
+        }
+        emit_fvcz(sp, fv, z);
+    }
     emit_fvscale(sp, fv, (double)rng.range(-8, 8) / 2.0, rng.coin());
     if (!fv.bases.empty()) emit_fvscalew(sp, fv, randWeights(rng, fv.bases.size()), rng.coin());
     // matrices
